@@ -152,6 +152,12 @@ func (d *DB) WaitCaughtUp(timeout time.Duration) bool {
 			if t.Stream == "" {
 				continue
 			}
+			if d.DB.VerifTableOffsets(t.Name) == nil {
+				// the row store goroutine has not installed its memstore yet (a query at this point would
+				// dereference nil: start-up race in zenodb, see DESIGN.md observations)
+				all = false
+				break
+			}
 			end := ends[t.Stream]
 			if end == nil {
 				continue
